@@ -17,6 +17,7 @@ type Exec struct {
 	fmtParent    map[*FmtStr]*FmtStr
 	fmtOf        map[string]*FmtStr
 	posOf        map[string]FmtPos
+	havocAllPCs  []string // path conditions under which the whole heap was havoc'd
 	lastAcq      *State
 	monAcq       map[string]*State // state right after the latest acquisition of a monitor (old() of its guarantee clauses)
 	guardedMaps  map[string]string // dom heap key of a guarded map type -> mutex key of its monitor
